@@ -29,7 +29,10 @@ type WeightedMerkleTrie struct {
 	oldRoot     hashNode
 	deleted     map[[32]byte]bool
 	tempDeleted [][]byte
-	created     [][]byte
+	// pendingDeleted holds the hashes of nodes superseded by changes that are not committed yet;
+	// Commit moves them to tempDeleted, so DeleteNodes never collects a node the last commit still needs
+	pendingDeleted [][]byte
+	created        [][]byte
 	sync.Mutex
 }
 
@@ -134,7 +137,7 @@ func (t *WeightedMerkleTrie) insert(node Node, prefix, key []byte, value Node) (
 			n.value = newNode
 			return change, n, nil
 		}
-		t.tempDeleted = append(t.tempDeleted, n.Hash())
+		t.pendingDeleted = append(t.pendingDeleted, n.Hash())
 		branch := &routingNode{dirty: true, weight: n.Weight() + value.Weight()}
 		var err error
 		_, branch.Children[n.key[prefixLen]], err = t.insert(nil, append(prefix, n.key[:prefixLen+1]...), n.key[prefixLen+1:], n.value)
@@ -173,7 +176,7 @@ func (t *WeightedMerkleTrie) delete(node Node, prefix, key []byte) (uint64, Node
 		}
 		if prefixLen == len(key) {
 			//delete the node
-			t.tempDeleted = append(t.tempDeleted, n.Hash(), n.value.Hash())
+			t.pendingDeleted = append(t.pendingDeleted, n.Hash(), n.value.Hash())
 			return n.Weight(), nil, nil
 		}
 		//the key is longer than the short node key, call delete on the child
@@ -221,7 +224,7 @@ func (t *WeightedMerkleTrie) delete(node Node, prefix, key []byte) (uint64, Node
 			}
 		}
 		if pos >= 0 {
-			t.tempDeleted = append(t.tempDeleted, n.Hash())
+			t.pendingDeleted = append(t.pendingDeleted, n.Hash())
 			cnode, err := t.resolve(n.Children[pos])
 			if err != nil {
 				return 0, nil, err
@@ -231,7 +234,7 @@ func (t *WeightedMerkleTrie) delete(node Node, prefix, key []byte) (uint64, Node
 				newKey := make([]byte, len(cnode.key)+1)
 				newKey[0] = byte(pos)
 				copy(newKey[1:], cnode.key)
-				t.tempDeleted = append(t.tempDeleted, cnode.Hash())
+				t.pendingDeleted = append(t.pendingDeleted, cnode.Hash())
 				newShortNode := &shortNode{
 					key:   newKey,
 					value: cnode.value,
@@ -244,7 +247,7 @@ func (t *WeightedMerkleTrie) delete(node Node, prefix, key []byte) (uint64, Node
 		}
 		return change, n, nil
 	case *valueNode:
-		t.tempDeleted = append(t.tempDeleted, n.Hash())
+		t.pendingDeleted = append(t.pendingDeleted, n.Hash())
 		return n.weight, nil, nil
 	case nil:
 		return 0, nil, ErrNotFound
@@ -325,6 +328,7 @@ func (t *WeightedMerkleTrie) Rollback() {
 		t.created = nil
 	}
 	t.tempDeleted = nil
+	t.pendingDeleted = nil
 	clear(t.deleted)
 }
 
@@ -374,6 +378,8 @@ func (t *WeightedMerkleTrie) Weight() uint64 {
 // Commit collapses the trie to the specified level and returns the batcher and the deleted nodes, it is the caller's responsibility to commit the batch
 func (t *WeightedMerkleTrie) Commit(collapseLevel int) (storage.Batcher, error) {
 	batcher := t.db.NewBatch()
+	t.tempDeleted = append(t.tempDeleted, t.pendingDeleted...)
+	t.pendingDeleted = nil
 	if !t.root.Dirty() {
 		return batcher, nil
 	}
@@ -456,6 +462,7 @@ func (t *WeightedMerkleTrie) RollbackTrie(node Node) {
 	}
 	t.created = nil
 	t.tempDeleted = nil
+	t.pendingDeleted = nil
 	clear(t.deleted)
 }
 
